@@ -573,6 +573,35 @@ def check(tier: str, seed: int, t0: float, build: core.BuildStatus) -> int:
                     rand_ok += 1
                     checker_accepts += 1
         oc.extra.update({"qgen_feature_histogram": feats, "qgen_queries_passing_oracle": rand_ok})
+        # the SAME query object handed to the translator again (a kept query executed twice): the job must book and fill
+        # the same tree as the first time - the returned descriptor names that tree both times
+        for be in BACKENDS:
+            main = {"atlas": "Jets", "cms_aod": "Muons", "cms_miniaod": "Muons"}[be]
+            for qsrc in (f'ds.SelectMany(lambda e: e.{main}("b1")).Select(lambda j: (j.pt(), j.eta())).AsROOTTTree("f.root", "t", ["a", "b"])',
+                         f'ds.Select(lambda e: e.{main}("b1").Count())',
+                         f'ds.Select(lambda e: {{"n": e.{main}("b1").Count(), "pts": e.{main}("b1").Select(lambda j: j.pt())}})'):
+                a = impl.query_ast(qsrc, None)
+                shapes = []
+                for again in range(3):
+                    t = impl.translate(be, a)
+                    impl.reset_globals()
+                    oc.evaluations += 1
+                    if t[0] != "ok":
+                        shapes.append(("error", t[1]))
+                        continue
+                    sl = t[1]["slots"]
+                    decl = [re.sub(r"\d+;$", ";", l.strip()) for l in sl.get("class_decl", []) if l.strip()]
+                    branches = [re.sub(r"\d+\);$", ");", l.strip()) for l in sl.get("book_code", []) if "Branch(" in l]
+                    fills = sum(1 for l in sl.get("query_code", []) if "Fill()" in l)
+                    shapes.append((t[1]["treename"], t[1]["filename"], tuple(decl), tuple(branches), fills))
+                hist[f"again:{be}:{'same' if len(set(shapes)) == 1 else 'DIFFERENT'}"] = hist.get(f"again:{be}:{'same' if len(set(shapes)) == 1 else 'DIFFERENT'}", 0) + 1
+                if len(set(shapes)) != 1:
+                    oc.violations.append(core.Violation(
+                        key="c03:retranslation-differs",
+                        what=f"{be}: the same query object translated again gives a different tree: first {shapes[0]!r}, then {[x for x in shapes[1:] if x != shapes[0]][0]!r}: {qsrc}",
+                        replay={"kind": "again", "backend": be, "query": qsrc, "shapes": [list(map(str, x)) for x in shapes]}))
+                else:
+                    oc.traces_validated_against_impl += 1
         model.close()
     oc.distinct_nontrivial = len(distinct)
     oc.samples = samples
@@ -604,6 +633,20 @@ def replay(path: str, build: core.BuildStatus) -> int:
         print("proof status now:", ps.broken or "all theorems check")
         return 1 if ps.broken else 0
     be = data["backend"]
+    if data.get("kind") == "again":
+        a = impl.query_ast(data["query"], None)
+        shapes = []
+        for _ in range(3):
+            t = impl.translate(be, a)
+            impl.reset_globals()
+            shapes.append(("error", t[1]) if t[0] != "ok" else
+                          (t[1]["treename"], len([l for l in t[1]["slots"].get("class_decl", []) if l.strip()]),
+                           sum(1 for l in t[1]["slots"].get("book_code", []) if "Branch(" in l), sum(1 for l in t[1]["slots"].get("query_code", []) if "Fill()" in l)))
+        print("(tree, members, branches, fills) per translation of the same query object:", shapes)
+        if len(set(shapes)) != 1:
+            print(f"VIOLATION property={PID} replay={path}")
+            return 1
+        return 0
     uni = qgen.Universe(be)
     model = core.Model()
     src = data["query"]
